@@ -122,7 +122,48 @@ impl gff::feature::Record for Record<'_> {
     }
 
     fn attributes(&self) -> Box<dyn gff::feature::record::Attributes + '_> {
-        Box::new(self.attributes().unwrap()) // TODO
+        match self.attributes() {
+            Ok(attributes) => Box::new(attributes),
+            Err(e) => Box::new(InvalidAttributes(e)),
+        }
+    }
+}
+
+/// Attributes that failed to parse.
+///
+/// `gff::feature::Record::attributes` is infallible, so the parse error is reported by the accessors
+/// instead.
+struct InvalidAttributes(io::Error);
+
+impl InvalidAttributes {
+    fn error(&self) -> io::Error {
+        io::Error::new(self.0.kind(), self.0.to_string())
+    }
+}
+
+impl gff::feature::record::Attributes for InvalidAttributes {
+    fn is_empty(&self) -> bool {
+        false
+    }
+
+    fn get(
+        &self,
+        _: &[u8],
+    ) -> Option<io::Result<gff::feature::record::attributes::field::Value<'_>>> {
+        Some(Err(self.error()))
+    }
+
+    fn iter(
+        &self,
+    ) -> Box<
+        dyn Iterator<
+                Item = io::Result<(
+                    std::borrow::Cow<'_, BStr>,
+                    gff::feature::record::attributes::field::Value<'_>,
+                )>,
+            > + '_,
+    > {
+        Box::new(std::iter::once(Err(self.error())))
     }
 }
 
